@@ -188,3 +188,16 @@ def inject_shapes(rng, rows):
         rows[i][1:5] = [round(o, 4), round(high, 4), round(low, 4), round(c, 4)]
         done += 1
     return done
+
+
+def pick_sim_now(rng, rows):
+    """Where the simulated wall clock stands for the whole run (core.run_property applies config["sim_now"]):
+    None = long after every stream (the default instant), or an instant BEFORE the stream (data dated in the
+    process's future: simulated or projected streams, exchange-local stamps ahead of the server) or in the
+    MIDDLE of it.  The library never reads the clock at the pinned commit, so any value is sound."""
+    r = rng.random()
+    if not rows or r < 0.6:
+        return None
+    if r < 0.75:
+        return rows[0][0] - 365 * 86400
+    return rows[0][0] + (rows[-1][0] - rows[0][0]) // 2
